@@ -957,6 +957,12 @@ func (e *eng) stageBin(c stgCase, i int) {
 	y.WriteString("contexts:\n  cx:\n    env:\n      CXE: c\n    before: [\"sleep 0.02\"]\n")
 	fmt.Fprintf(&y, "  cx2:\n    dir: \"%s/{{.cd}}\"\n", d)
 	fmt.Fprintf(&y, "tasks:\n  t:\n    context: cx\n    dir: %s\n    env:\n      V: v0\n      A: a0\n    variables:\n      w: w0\n      B: b0\n      G: \"g-{{.w}}\"\n", yq(filepath.Join(d, "d0")))
+	// the task's before and after hooks see what its commands see (the same stage's view; not G: a
+	// variable whose value is itself a template is rendered for commands only, which no property fixes)
+	hookObs := func(pos string) string {
+		return fmt.Sprintf("      - sleep 0.0$((RANDOM %% 3))\n      - |\n        echo \"$V|$A|{{.w}}|{{.B}}|$(pwd)|$P\" > \"$OUTDIR/%s-{{with index . \".Stage.Name\"}}{{.}}{{else}}direct{{end}}\"\n", pos)
+	}
+	y.WriteString("    before:\n" + hookObs("before") + "    after:\n" + hookObs("after"))
 	y.WriteString("    command:\n      - sleep 0.0$((RANDOM % 5))\n      - |\n        echo \"$V|$A|{{.w}}|{{.B}}|$(pwd)|{{.G}}|$P\" > \"$OUTDIR/{{with index . \".Stage.Name\"}}{{.}}{{else}}direct{{end}}\"\n")
 	// a second task whose working directory comes from its context, as a template over a variable
 	// that stages override: every stage (and the direct run) gets its own rendering
@@ -1045,6 +1051,12 @@ func (e *eng) stageBin(c stgCase, i int) {
 				kind = "another-pipeline-sees-stage-override"
 			}
 			add(kind, fmt.Sprintf("%s printed %q, model %q", name, got[name], want))
+		}
+		wantHook := fmt.Sprintf("%s|a0|%s|b0|%s|%s", v, w, filepath.Join(d, dir), pk)
+		for _, pos := range []string{"before", "after"} {
+			if h := got[pos+"-"+name]; h != wantHook {
+				add("hook-sees-another-view", fmt.Sprintf("the %s hook of %s printed %q, the model (and its commands) %q", pos, name, h, wantHook))
+			}
 		}
 	}
 	if i%300 == 7 {
